@@ -355,7 +355,24 @@ pub fn main() {
         "C06" => c06::run(&opts),
         "C08" | "C09" => sync::run(&opts, &opts.property.clone()),
         "C07" => c07::run(&opts),
-        "C10" => c10::run(&opts),
+        "C10" => {
+            // byte-level fuzz of all four protocol handlers in every peer state + the handler
+            // histories of the Prove layer (whose totality theorems C10 claims), compared with
+            // the model including the panic classes
+            let mut r = c10::run(&opts);
+            if opts.replay.is_none() && std::env::var("C10_JOBS").is_err() {
+                let mut o2 = opts.clone();
+                o2.property = "C10".into();
+                let mut p = prove::run(&o2, "C10");
+                for v in p.violations.iter_mut() {
+                    if !v.signature.starts_with("C10|") {
+                        v.signature = format!("C10|prove-layer|{}", v.signature);
+                    }
+                }
+                r.merge(p);
+            }
+            r
+        }
         "C13" => c13::run(&opts),
         "C14" => c14::run(&opts),
         "C15" => c15::run(&opts),
